@@ -342,6 +342,40 @@ class Check:
                 self.broken.append({"what": f"theorem {t}", "detail": axs, "log": out[-1500:]})
         return allok
 
+    def gen_obligations(self, module, theorems: list, what: str):
+        """Theorems about definitions REGENERATED from the source (`CvGen/Py*.lean`, translator `extract/pylean.py`):
+        `generated = hand-written model`.  Built and audited apart from the property's other theorems, so that a source
+        change the proofs cannot follow is named precisely.  A failure is a broken obligation (never a violation by
+        itself): the run's exploration of the implementation against the Spec decides the wording."""
+        if self._obligations_done is not None:
+            return all(ok for n, ok, _ in self.obligations if n in theorems)
+        okb, _ = LeanBuild.ensure()
+        if not okb:
+            return False
+        for m in getattr(LeanBuild, "gen_msgs", []):
+            if m.get("ok", True) and self.pid in m.get("properties", []) and "CvGen/Py" in m.get("name", ""):
+                self.extra.setdefault("translated_functions", {}).update(m.get("detail", {}))
+        okm, logm = LeanBuild.build_module(module)
+        if not okm:
+            for t in theorems:
+                self.obligations.append((t, False, "module does not build against the regenerated definitions"))
+            errs = [ln for ln in logm.split("\n") if "error" in ln][:6]
+            self.broken.append({"what": f"{what}: lake build {module} (theorems `generated = model` no longer check against the current source)", "detail": errs or logm[-1500:]})
+            return False
+        mods = [module] if isinstance(module, str) else list(module)
+        rc = sh("lake env leanchecker " + " ".join(mods) + " 2>&1", cwd=LEAN_DIR, timeout=3600)
+        self.obligations.append(("leanchecker re-checks " + " ".join(mods), rc.returncode == 0, (rc.stdout + rc.stderr)[-400:] if rc.returncode else ""))
+        if rc.returncode != 0:
+            self.broken.append({"what": "leanchecker " + " ".join(mods), "detail": (rc.stdout + rc.stderr)[-1500:]})
+        res, out = LeanBuild.audit(module, theorems)
+        allok = rc.returncode == 0
+        for t, (o, axs) in res.items():
+            self.obligations.append((t, o, axs))
+            if not o:
+                allok = False
+                self.broken.append({"what": f"theorem {t}", "detail": axs, "log": out[-1500:]})
+        return allok
+
     def obligation(self, name: str, ok: bool, detail=""):
         if self.round and any(n == name and o == bool(ok) for n, o, _ in self.obligations):
             return  # same obligation, already recorded by an earlier exploration round of this run
